@@ -9,28 +9,33 @@ from concurrent.futures import ThreadPoolExecutor
 
 PROPS = ["C16/Props.v"]
 META = dict(
-    text="Rocq theorems over a transcription of the obigrep predicate builders (guards, 2e9 sentinels, nil-propagation, -v, six paired modes), "
-         "the obiannotate worker chain (ChainWorkers with nil handling, every edit once in the documented order, untouched attributes/sequence/id unchanged, "
-         "--cut as a function of the record alone) and the Distribute/DivideOn routing loops (every record in exactly one output chosen by its class alone; "
-         "kept/discarded = the selection and exactly its complement; mates kept together at the same rank). On every run the BUILT obigrep/obiannotate/"
-         "obidistribute/obimultiplex are driven on generated FASTA/FASTQ inputs with each option alone, every pair, random larger subsets, repeated options, "
-         "boundary values, the six paired modes, worker x batch grids and repeated tiny runs; every output file is compared with a Python reference "
-         "interpreter of the options (direct oracle) and with the Coq model evaluated by vm_compute on the same option record and records (correspondence).",
-    note="Trusted/abstract: Go regexp, gval, apat approximate matcher and taxonomy predicates are Section variables of the model (the correspondence instantiates them with a "
-         "literal/character-class matcher and a 16-constructor expression subset); readers/writers/file naming (C01-C04); obimultiplex -u is checked by the oracle only "
-         "(partition + same routing for any order/subset/workers/batch size). Guards stated in the theorems: records of length >= 1, 1 <= count, both below the 2e9 sentinels; "
-         "rename/-S maps with independent keys (Go map order). Known findings: -v / andnot / xor are no-ops when no criterion is effective (nil predicate); FASTQ written as "
-         "FASTA when the first batch reaching the writer is empty. Observation outside the statement (evidence key observation_outside_statement): obiannotate with selection "
-         "options drops the unselected records. Taxonomy options, --approx-pattern, aho-corasick, --pattern, LCA edits are modelled abstractly / not driven.")
-TRUSTED = ["Go regexp, gval expression evaluation, obiapat approximate matching and taxonomy predicates are Section variables (re_match, eval_bool, eval_val, approx_match, tax_*) of the model",
-           "model matcher of the correspondence covers literals, '.', character classes, ^ and $ only; expressions a 10-constructor subset"]
+    text="Rocq theorems over a transcription of the obigrep predicate builders (guards, 2e9 sentinels, nil-propagation, -v for EVERY option set, six paired modes, "
+         "--approx-pattern with its error budget / strand / indel plumbing), the obiannotate worker chain (ChainWorkers with nil handling, every edit once in the code's order: "
+         "clear, set-id, delete, keep, rename incl. the record fields id/sequence, taxon-at-rank, path, rank, scientific name, lca, length, -S, aho-corasick, cut, --pattern; "
+         "selection options edit the selected records and pass the others through; untouched attributes/sequence/id unchanged; --cut as a function of the record alone) and the "
+         "Distribute/DivideOn/FilterOn+Rebatch loops both at record level and at BATCH level for every batch size and partition (every record in exactly one output chosen by its class "
+         "alone; kept/discarded = the selection and exactly its complement; mates kept together at the same rank). On every run the BUILT obigrep/obiannotate/obidistribute/obimultiplex "
+         "are driven on generated FASTA/FASTQ inputs with each option alone, every pair, random larger subsets, repeated options (last wins / accumulate), options in shuffled order, "
+         "values at the guards (0, 1, 2, 2e9-1, 2e9, 2e9+1), string-typed counts, the six paired modes, worker x batch grids and repeated tiny runs; every output file is compared with a "
+         "Python reference interpreter of the options (direct oracle) and with the Coq model evaluated by vm_compute on the same option record and records (correspondence).",
+    note="Trusted/abstract: Go regexp, gval, the apat matcher (IsMatching / BestMatch / ReverseComplement), the taxonomy edits (SetTaxonAtRank, SetPath, SetTaxonomicRank, "
+         "SetScientificName, AddLCAWorker) and the Aho-Corasick counter are Section variables of the model; the correspondence instantiates them with a literal/character-class matcher, "
+         "a 16-constructor expression subset, an IUPAC Hamming-window / Sellers matcher, a leftmost-best Hamming BestMatch, the 11-node taxonomy (LCA at threshold 1.0) and an "
+         "overlapping-occurrence counter, each also checked against the real code by the Python oracle. --pattern with --allows-indels: location chosen by the matcher is not predicted "
+         "(presence, strand preference and slot consistency are). readers/writers/file naming (C01-C04); obimultiplex -u is checked by the oracle only. Guards stated in the theorems: "
+         "records of length >= 1, 1 <= count, both below the 2e9 sentinels; C16_annotate_untouched / _seq_id_untouched are stated for option sets without external edits (no_ext) and, for "
+         "the sequence/id, without rename/-S aimed at the fields id/sequence; C16_annotate_untouched_ext covers the option sets WITH external edits under explicit frame hypotheses "
+         "(taxonomy edits and the Aho-Corasick counter write only slots of ext_key and keep id/sequence; the four --pattern slots are computed in the model); rename/-S maps with independent keys (Go map order). impl_worker is written as the fold of ChainWorkers over "
+         "the 15 optional steps (a step not requested chains the nil worker, which ChainWorkers ignores). Quality strings are not in the model (rename from `qualities` on FASTQ: oracle only). "
+         "Observations outside the statement (evidence key observations): --add-lca-in panics on a record without taxid and creates the merged_taxid summary slot; the scientific-name "
+         "slot is spelt `scienctific_name`; a string-typed count reads as 1.")
+TRUSTED = ["Go regexp, gval evaluation, obiapat matcher (IsMatching, BestMatch, ReverseComplement), obitax edits (SetTaxonAtRank, SetPath, SetTaxonomicRank, SetScientificName, AddLCAWorker) and the Aho-Corasick counter are Section variables (re_match, eval_bool, eval_val, approx_match, apat_rc, best_match, at_rank, set_path, set_trank, set_sciname, set_lca, aho_edit) of the model",
+           "concrete instances used by the correspondence: literal/'.'/class/^/$ regexps, 16-constructor expressions, IUPAC Hamming-window and Sellers matchers, leftmost-best BestMatch without indels, 11-node taxonomy with LCA at threshold 1.0",
+           "the batch-level model takes the input batches in order (SortBatches) and one goroutine per Distribute/DivideOn/Rebatch loop; FilterOn workers are modelled as a per-batch filter that keeps the batch order number"]
 
 SENT = 2000000000
 MAX_VIOL = 8
-KNOWN_TEXT = {
-    "nil-predicate-shortcut": "obigrep -v / --paired-mode andnot|xor are no-ops when no criterion is effective (nil predicate: `-v`, `-v -l 1`, `--paired-mode xor` alone keep every record)",
-    "fastq-written-as-fasta": "obiannotate writes FASTQ input as FASTA (qualities lost) when the first batch reaching the writer is empty, e.g. --cut dropping every record of a batch (WriteSequence chooses the format from the first batch)",
-}
+KNOWN_TEXT = {}     # round 2: nil-predicate-shortcut and fastq-written-as-fasta are repaired (status fixed): the oracle keys below only label the violation
 CMDS = ["obigrep", "obiannotate", "obidistribute", "obimultiplex"]
 MODES = ["forward", "reverse", "and", "or", "andnot", "xor"]
 
@@ -71,7 +76,7 @@ SKEYS = ["k", "tag", "sample"]
 IKEYS = ["n", "x"]
 
 
-def gen_dataset(rng, n, fastq=False, prefix="s", with_count=True):
+def gen_dataset(rng, n, fastq=False, prefix="s", with_count=True, all_taxid=False):
     recs = []
     lens = [1, 2, 3, 5, 8, 9, 10, 11, 20, 59, 60, 61]
     for i in range(n):
@@ -82,14 +87,18 @@ def gen_dataset(rng, n, fastq=False, prefix="s", with_count=True):
         attrs = {}
         if with_count and rng.random() < 0.6:
             attrs["count"] = rng.choice([1, 1, 2, 3, 5, 6, 7, 10, 100])
+            if rng.random() < 0.12:
+                attrs["count"] = str(attrs["count"])       # string-typed count: BioSequence.Count() reads it as 1
         for k in SKEYS:
             if rng.random() < 0.5:
                 attrs[k] = rng.choice(WORDS)
         for k in IKEYS:
             if rng.random() < 0.5:
                 attrs[k] = rng.choice([0, 1, 3, 7, 12, 22, 100])
-        if rng.random() < 0.6:
+        if all_taxid or rng.random() < 0.6:
             attrs["taxid"] = rng.choice([t for t, _, _ in TAX_NODES])
+        if all_taxid and rng.random() < 0.3:
+            attrs["merged_taxid"] = {str(t): rng.choice([1, 1, 2, 5]) for t in rng.sample([t for t, _, _ in TAX_NODES], rng.choice([1, 2, 3]))}
         d = rng.choice(DEFS)
         if d:
             attrs["definition"] = d
@@ -232,7 +241,9 @@ def pexpr_src(e):
 
 
 def rec_count(r):
-    return r["attrs"].get("count", 1)
+    """BioSequence.Count(): the integer attribute `count`; 1 when absent or not an integer (string-typed counts)."""
+    c = r["attrs"].get("count", 1)
+    return c if isinstance(c, int) and not isinstance(c, bool) else 1
 
 
 def pexpr_eval(e, r):
@@ -322,6 +333,65 @@ def gen_vexpr(rng, strings_only=False):
     return (k,)
 
 
+# ------------------------------------------------------------------ approximate patterns (--approx-pattern / --pattern)
+
+IUPAC = {'a': 'a', 'c': 'c', 'g': 'g', 't': 't', 'r': 'ag', 'y': 'ct', 'm': 'ac', 'k': 'gt', 's': 'cg', 'w': 'at', 'b': 'cgt', 'd': 'agt', 'h': 'act', 'v': 'acg', 'n': 'acgt'}
+IUPAC_COMP = {'a': 't', 'c': 'g', 'g': 'c', 't': 'a', 'r': 'y', 'y': 'r', 'm': 'k', 'k': 'm', 's': 's', 'w': 'w', 'b': 'v', 'v': 'b', 'd': 'h', 'h': 'd', 'n': 'n'}
+
+
+def pat_rc(p):
+    return "".join(IUPAC_COMP[c] for c in reversed(p))
+
+
+def pm(pc, tc):
+    return tc in IUPAC.get(pc, "")
+
+
+def ham_hits(p, t, e):
+    """all (start, errors) of windows of |p| with <= e mismatches"""
+    m = len(p)
+    out = []
+    for i in range(len(t) - m + 1):
+        d = sum(0 if pm(a, b) else 1 for a, b in zip(p, t[i:i + m]))
+        if d <= e:
+            out.append((i, d))
+    return out
+
+
+def sellers(p, t, e):
+    m = len(p)
+    col = list(range(m + 1))
+    if col[m] <= e:
+        return True
+    for c in t:
+        new = [0] * (m + 1)
+        for i in range(1, m + 1):
+            new[i] = min(col[i - 1] + (0 if pm(p[i - 1], c) else 1), col[i] + 1, new[i - 1] + 1)
+        col = new
+        if col[m] <= e:
+            return True
+    return False
+
+
+def approx_ref(p, t, e, indel, both):
+    f = (lambda q: sellers(q, t, e)) if indel else (lambda q: bool(ham_hits(q, t, e)))
+    return f(p) or (both and f(pat_rc(p)))
+
+
+def best_ref(p, t, e):
+    """substitutions only: the leftmost window with the fewest mismatches"""
+    h = ham_hits(p, t, e)
+    if not h:
+        return None
+    b = min(d for _, d in h)
+    i = [i for i, d in h if d == b][0]
+    return i, i + len(p), b
+
+
+def aho_count(pats, t):
+    return sum(1 for p in pats for i in range(len(t) - len(p) + 1) if t[i:i + len(p)] == p)
+
+
 # ------------------------------------------------------------------ reference interpreter (the direct oracle)
 
 def sprint(v):
@@ -370,6 +440,9 @@ def crit_all(o, r):
         return False
     if any(t in [x for x, _ in path] for t in o.get("ignore", [])):
         return False
+    for p in o.get("approx", []):
+        if not approx_ref(p, r["seq"], o.get("pat_err", 0), bool(o.get("pat_indel")), not o.get("pat_fwd")):
+            return False
     return True
 
 
@@ -378,7 +451,7 @@ def effective(o):
     return bool((o.get("minlen") is not None and o["minlen"] > 1) or (o.get("maxlen") is not None and o["maxlen"] != SENT) or
                 (o.get("mincount") is not None and o["mincount"] > 1) or (o.get("maxcount") is not None and o["maxcount"] != SENT) or
                 o.get("seqpats") or o.get("defpats") or o.get("idpats") or o.get("preds") or o.get("hasattr") or o.get("attrpats") or
-                (o.get("idlist") is not None and len(o["idlist"]) > 0) or o.get("ranks") or o.get("restrict") or o.get("ignore"))
+                (o.get("idlist") is not None and len(o["idlist"]) > 0) or o.get("ranks") or o.get("restrict") or o.get("ignore") or o.get("approx"))
 
 
 def spec_single(o, r):
@@ -412,14 +485,67 @@ def cut_ref(seq, qual, frm, to):
     return f, t
 
 
-def spec_annot(o, r):
-    """Apply every requested edit once, in the documented order. Returns the list of output records (0 or 1)."""
-    rid, attrs, seq, qual = r["id"], dict(r["attrs"]), r["seq"], r.get("qual")
-    cur = dict(id=rid, attrs=attrs, seq=seq)
+def lca_slots(slot):
+    """AddLCAWorker slot naming"""
+    if not slot.endswith("taxid"):
+        slot = slot + "_taxid"
+    err = slot.replace("taxid", "error", 1)
+    if err == "error":
+        err = "lca_error"
+    name = slot.replace("taxid", "name", 1)
+    if name == "name":
+        name = "scientific_name"
+    return slot, name, err
+
+
+def lca_ref(taxids):
+    paths = [list(reversed([x for x, _ in tax_path(t)])) for t in taxids]
+    out = None
+    for lvl in zip(*paths):
+        if all(x == lvl[0] for x in lvl):
+            out = lvl[0]
+        else:
+            break
+    return out
+
+
+PATTERN_SLOTS = None
+
+
+def pattern_slots(name):
+    if name not in ("pattern", "", None):
+        return "%s_pattern" % name, name
+    return "pattern", "pattern"
+
+
+def spec_annot(o, r, sel=None):
+    """Apply every requested edit once, in the documented order, to every SELECTED record; the other records are
+    written unchanged. Returns the list of output records (0 or 1)."""
+    if sel is not None and not spec_single(sel, r):
+        return [dict(r, attrs=dict(r["attrs"]))]
+    attrs, qual = dict(r["attrs"]), r.get("qual")
+    cur = dict(id=r["id"], attrs=attrs, seq=r["seq"])
     if o.get("clear"):
         attrs.clear()
     if o.get("setid") is not None:
         cur["id"] = sprint(vexpr_eval(o["setid"], cur))
+
+    def get_attr(k):            # BioSequence.GetAttribute
+        if k == "id":
+            return True, cur["id"]
+        if k == "sequence":
+            return (len(cur["seq"]) > 0), cur["seq"]
+        if k == "qualities":
+            return (qual is not None), qual
+        return (k in attrs), attrs.get(k)
+
+    def set_attr(k, v):         # BioSequence.SetAttribute: id / sequence are the fields of the record
+        if k == "id":
+            cur["id"] = sprint(v)
+        elif k == "sequence":
+            cur["seq"] = sprint(v).lower()
+        else:
+            attrs[k] = v
     for k in o.get("delete", []):
         attrs.pop(k, None)
     if o.get("keep"):
@@ -427,26 +553,93 @@ def spec_annot(o, r):
             if k not in o["keep"]:
                 del attrs[k]
     for new, old in o.get("rename", {}).items():
-        if old in attrs:
-            v = attrs[old]
-            attrs[new] = v
-            del attrs[old]
+        ok, v = get_attr(old)
+        if ok:
+            set_attr(new, v)
+            attrs.pop(old, None)
+    taxid = rec_taxid(cur)
+    if not isinstance(taxid, int):
+        taxid = 1
+    for rk in o.get("taxrank", []):
+        hit = [x for x, k in tax_path(taxid) if k == rk]
+        attrs[rk + "_taxid"] = hit[0] if hit else -1
+        attrs[rk + "_name"] = ("taxon%d" % hit[0]) if hit else "NA"
+    if o.get("taxpath"):
+        attrs["taxonomic_path"] = "|".join("%d@taxon%d@%s" % (x, x, k) for x, k in reversed(tax_path(taxid)))
+    if o.get("taxrankname"):
+        attrs["taxonomic_rank"] = TAX_PARENT[taxid][1]
+    if o.get("sciname"):
+        attrs["scienctific_name"] = "taxon%d" % taxid
+    if o.get("lca"):
+        if "merged_taxid" not in attrs:
+            attrs["merged_taxid"] = {str(taxid): rec_count(cur)}        # StatsOn creates the summary slot
+        l = lca_ref([int(k) for k in attrs["merged_taxid"]])
+        st, sn, se = lca_slots(o["lca"])
+        attrs[st], attrs[sn], attrs[se] = l, "taxon%d" % l, 0
     if o.get("length"):
-        attrs["seq_length"] = len(seq)
+        attrs["seq_length"] = len(cur["seq"])
     for k, e in o.get("settag", {}).items():
-        attrs[k] = vexpr_eval(e, cur)
+        set_attr(k, vexpr_eval(e, cur))
+    if o.get("aho") is not None:
+        pats = [x.lower() for x in o["aho"] if len(x) > 0]
+        nf, nr = aho_count(pats, cur["seq"]), aho_count(pats, revcomp(cur["seq"]))
+        if nf + nr > 0:
+            attrs["aho_corasick"], attrs["aho_corasick_Fwd"], attrs["aho_corasick_Rev"] = nf + nr, nf, nr
     if o.get("cut") is not None and o["cut"][0] != 0 and o["cut"][1] != 0:
-        ft = cut_ref(seq, qual, o["cut"][0], o["cut"][1])
+        ft = cut_ref(cur["seq"], qual, o["cut"][0], o["cut"][1])
         if ft is None:
             return []
         f, t = ft
-        cur["seq"] = seq[f:t]
+        cur["seq"] = cur["seq"][f:t]
         if qual is not None:
             qual = qual[f:t]
         cur["id"] = "%s_sub[%d..%d]" % (cur["id"], f + 1, t)
+    if o.get("pattern") and not o.get("pat_indel"):
+        p, e = o["pattern"], o.get("pat_err", 0)
+        slot, name = pattern_slots(o.get("pattern_name"))
+        m = best_ref(p, cur["seq"], e)
+        if m is not None:
+            attrs[slot], attrs[name + "_match"], attrs[name + "_error"] = p, cur["seq"][m[0]:m[1]], m[2]
+            attrs[name + "_location"] = "%d..%d" % (m[0] + 1, m[1])
+        elif not o.get("pat_fwd"):
+            m = best_ref(pat_rc(p), cur["seq"], e)
+            if m is not None:
+                attrs[slot], attrs[name + "_match"], attrs[name + "_error"] = p, revcomp(cur["seq"][m[0]:m[1]]), m[2]
+                attrs[name + "_location"] = "complement(%d..%d)" % (m[0] + 1, m[1])
     if qual is not None:
         cur["qual"] = qual
     return [cur]
+
+
+def pattern_indel_ok(o, exp, got, untouched=()):
+    """--pattern with --allows-indels: the location chosen by the matcher is not predicted; the other edits are compared
+    exactly and the pattern slots are checked for presence (exactly on the records with an occurrence within the error
+    budget on an allowed strand), strand preference and internal consistency."""
+    slot, name = pattern_slots(o.get("pattern_name"))
+    keys = [slot, name + "_match", name + "_error", name + "_location"]
+
+    def strip(r):
+        return dict(r, attrs={k: v for k, v in r["attrs"].items() if k not in keys})
+    if sorted(rec_key(strip(r)) for r in got) != sorted(rec_key(r) for r in exp):
+        return "records differ apart from the pattern slots"
+    p, e = o["pattern"], o.get("pat_err", 0)
+    for r in got:
+        if rec_key(r) in untouched:
+            continue            # a record that was not selected: written unchanged
+        has = [k in r["attrs"] for k in keys]
+        fwd = sellers(p, r["seq"], e)
+        rev = (not o.get("pat_fwd")) and sellers(pat_rc(p), r["seq"], e)
+        if any(has) != (fwd or rev) or (any(has) and not all(has)):
+            return "pattern slots of %s: present=%s, occurrence forward=%s reverse=%s" % (r["id"], has, fwd, rev)
+        if any(has):
+            loc = str(r["attrs"][name + "_location"])
+            if loc.startswith("complement") == fwd:
+                return "pattern strand of %s: %s while forward occurrence=%s" % (r["id"], loc, fwd)
+            a, b = [int(x) for x in loc.replace("complement(", "").rstrip(")").split("..")]
+            sub = r["seq"][a - 1:b]
+            if r["attrs"][name + "_match"] != (revcomp(sub) if loc.startswith("complement") else sub) or not (0 <= r["attrs"][name + "_error"] <= e) or r["attrs"][slot] != p:
+                return "pattern slots of %s are inconsistent: %s" % (r["id"], {k: r["attrs"][k] for k in keys})
+    return None
 
 
 def route_ref(o, r, idx):
@@ -470,62 +663,134 @@ def route_ref(o, r, idx):
 
 # ------------------------------------------------------------------ running the real commands
 
-def grep_argv(o, work):
-    a = []
+def order_groups(groups, seed):
+    """Shuffle option groups; groups of the same option keep their relative order (slices accumulate, scalars: last wins)."""
+    if seed is None:
+        return [t for g in groups for t in g]
+    if isinstance(seed, (list, tuple)):          # an explicit permutation of the groups
+        return [t for i in seed for t in groups[i]] if sorted(seed) == list(range(len(groups))) else [t for g in groups for t in g]
+    import random
+    rr = random.Random(seed)
+    pos = [rr.random() for _ in groups]
+    byopt = {}
+    for i, g in enumerate(groups):
+        byopt.setdefault(g[0], []).append(i)
+    for idxs in byopt.values():
+        ps = sorted(pos[i] for i in idxs)
+        for i, p in zip(idxs, ps):
+            pos[i] = p
+    return [t for _, g in sorted(zip(pos, groups), key=lambda x: x[0]) for t in g]
+
+
+def grep_groups(o, work, with_tax=True):
+    g = []
+    for k, v in o.get("repeat", []):        # earlier occurrences of a scalar option: the last one (in o) wins
+        g.append([k, str(v)])
     for opt, k in (("-l", "minlen"), ("-L", "maxlen"), ("-c", "mincount"), ("-C", "maxcount")):
         if o.get(k) is not None:
-            a += [opt, str(o[k])]
+            g.append([opt, str(o[k])])
     for p in o.get("seqpats", []):
-        a += ["-s", p]
+        g.append(["-s", p])
     for p in o.get("defpats", []):
-        a += ["-D", p]
+        g.append(["-D", p])
     for p in o.get("idpats", []):
-        a += ["-I", p]
+        g.append(["-I", p])
     for e in o.get("preds", []):
-        a += ["-p", pexpr_src(e)]
+        g.append(["-p", pexpr_src(e)])
     for k in o.get("hasattr", []):
-        a += ["-A", k]
+        g.append(["-A", k])
+    for k, p in o.get("attrpats_over", []):  # overridden occurrences of -a KEY=...: the map keeps the last one
+        g.append(["-a", "%s=%s" % (k, p)])
     for k, p in o.get("attrpats", {}).items():
-        a += ["-a", "%s=%s" % (k, p)]
+        g.append(["-a", "%s=%s" % (k, p)])
     if o.get("idlist") is not None:
         fn = os.path.join(work, "ids.txt")
         with open(fn, "w") as f:
             f.write("".join(" %s \n" % x if i % 3 == 0 else x + "\n" for i, x in enumerate(o["idlist"])))
-        a += ["--id-list", fn]
-    if o.get("ranks") or o.get("restrict") or o.get("ignore"):
-        a += ["-t", TAXDIR[0]]
+        g.append(["--id-list", fn])
+    if with_tax and (o.get("ranks") or o.get("restrict") or o.get("ignore")):
+        g.append(["-t", TAXDIR[0]])
     for rk in o.get("ranks", []):
-        a += ["--require-rank", rk]
+        g.append(["--require-rank", rk])
     for t in o.get("restrict", []):
-        a += ["-r", str(t)]
+        g.append(["-r", str(t)])
     for t in o.get("ignore", []):
-        a += ["-i", str(t)]
+        g.append(["-i", str(t)])
+    for p in o.get("approx", []):
+        g.append(["--approx-pattern", p])
+    if o.get("pat_err") is not None:
+        g.append(["--pattern-error", str(o["pat_err"])])
+    if o.get("pat_indel"):
+        g.append(["--allows-indels"])
+    if o.get("pat_fwd"):
+        g.append(["--only-forward"])
     if o.get("invert"):
-        a += ["-v"]
-    for k, v in o.get("repeat", []):        # a scalar option given twice: the last occurrence wins (already in o)
-        a = [k, str(v)] + a
-    return a
+        g.append(["-v"])
+    return g
 
 
-def annot_argv(o):
-    a = []
+def grep_argv(o, work):
+    return order_groups(grep_groups(o, work), o.get("shuffle"))
+
+
+def needs_tax(o):
+    return bool(o.get("taxrank") or o.get("taxpath") or o.get("taxrankname") or o.get("sciname") or o.get("lca"))
+
+
+def annot_groups(o, work):
+    g = []
     if o.get("clear"):
-        a += ["--clear"]
+        g.append(["--clear"])
     if o.get("setid") is not None:
-        a += ["--set-identifier", vexpr_src(o["setid"])]
+        g.append(["--set-identifier", vexpr_src(o["setid"])])
     for k in o.get("delete", []):
-        a += ["--delete-tag", k]
+        g.append(["--delete-tag", k])
     for k in o.get("keep", []):
-        a += ["-k", k]
+        g.append(["-k", k])
     for new, old in o.get("rename", {}).items():
-        a += ["-R", "%s=%s" % (new, old)]
+        g.append(["-R", "%s=%s" % (new, old)])
     if o.get("length"):
-        a += ["--length"]
+        g.append(["--length"])
     for k, e in o.get("settag", {}).items():
-        a += ["-S", "%s=%s" % (k, vexpr_src(e))]
+        g.append(["-S", "%s=%s" % (k, vexpr_src(e))])
     if o.get("cut") is not None:
-        a += ["--cut=%d:%d" % tuple(o["cut"])]
-    return a
+        g.append(["--cut=%d:%d" % tuple(o["cut"])])
+    for rk in o.get("taxrank", []):
+        g.append(["--with-taxon-at-rank", rk])
+    if o.get("taxpath"):
+        g.append(["--taxonomic-path"])
+    if o.get("taxrankname"):
+        g.append(["--taxonomic-rank"])
+    if o.get("sciname"):
+        g.append(["--scientific-name"])
+    if o.get("lca"):
+        g.append(["--add-lca-in", o["lca"]])
+    if o.get("aho") is not None:
+        fn = os.path.join(work, "aho.txt")
+        with open(fn, "w") as f:
+            f.write("".join(x + "\n" for x in o["aho"]))
+        g.append(["--aho-corasick", fn])
+    if o.get("pattern"):
+        g.append(["--pattern", o["pattern"]])
+        if o.get("pattern_name") is not None:
+            g.append(["--pattern-name", o["pattern_name"]])
+        if o.get("pat_err") is not None:
+            g.append(["--pattern-error", str(o["pat_err"])])
+        if o.get("pat_indel"):
+            g.append(["--allows-indels"])
+        if o.get("pat_fwd"):
+            g.append(["--only-forward"])
+    return g
+
+
+def annot_argv(o, work, sel=None):
+    g = annot_groups(o, work)
+    seltax = sel is not None and (sel.get("ranks") or sel.get("restrict") or sel.get("ignore"))
+    if needs_tax(o) or seltax:
+        g.append(["-t", TAXDIR[0]])
+    if sel is not None:
+        g += grep_groups(sel, work, with_tax=False)
+    return order_groups(g, o.get("shuffle"))
 
 
 class Runner:
@@ -559,9 +824,7 @@ class Runner:
         try:
             if case["tool"] in ("grep", "annot"):
                 argv = [os.path.join(self.bin, "obigrep" if case["tool"] == "grep" else "obiannotate")] + common
-                argv += grep_argv(o, work) if case["tool"] == "grep" else annot_argv(o)
-                if case["tool"] == "annot" and case.get("sel"):
-                    argv += grep_argv(case["sel"], work)
+                argv += grep_argv(o, work) if case["tool"] == "grep" else annot_argv(o, work, case.get("sel"))
                 disc = None
                 if o.get("save_discarded"):
                     disc = os.path.join(work, "disc." + ext)
@@ -657,18 +920,39 @@ def boundary_values(ds):
     return lens, cnts
 
 
+def gen_apat(rng, ds):
+    """an IUPAC pattern cut out of a record (mutated: substitutions, ambiguity codes, one indel, other strand) or random"""
+    src = rng.choice(ds)["seq"]
+    m = rng.choice([4, 5, 6, 8, 10])
+    if len(src) >= m and rng.random() < 0.8:
+        k = rng.randrange(0, len(src) - m + 1)
+        p = list(src[k:k + m])
+        for _ in range(rng.choice([0, 0, 1, 2])):
+            p[rng.randrange(len(p))] = rng.choice("acgtnryw")
+        if rng.random() < 0.3 and len(p) > 4:
+            del p[rng.randrange(len(p))]
+        if rng.random() < 0.3:
+            p.insert(rng.randrange(len(p)), rng.choice("acgt"))
+        p = "".join(p)
+        if rng.random() < 0.4:
+            p = pat_rc(p)
+    else:
+        p = "".join(rng.choice("acgt") for _ in range(m))
+    return p
+
+
 def gen_single_option(rng, ds, fam):
     lens, cnts = boundary_values(ds)
     L = rng.choice(lens) + rng.choice([-1, 0, 1])
     C = rng.choice(cnts) + rng.choice([-1, 0, 1])
     if fam == "minlen":
-        return dict(minlen=rng.choice([1, 2, L, max(lens) + 1]))
+        return dict(minlen=rng.choice([0, 1, 2, L, max(lens) + 1, SENT - 1, SENT]))
     if fam == "maxlen":
-        return dict(maxlen=max(0, rng.choice([L, min(lens) - 1, max(lens), 1])))
+        return dict(maxlen=max(0, rng.choice([L, min(lens) - 1, max(lens), 1, 0, SENT - 1, SENT, SENT + 1])))
     if fam == "mincount":
-        return dict(mincount=max(1, rng.choice([1, 2, C, max(cnts) + 1])))
+        return dict(mincount=max(0, rng.choice([0, 1, 2, C, max(cnts) + 1, SENT])))
     if fam == "maxcount":
-        return dict(maxcount=max(0, rng.choice([C, 1, max(cnts), min(cnts)])))
+        return dict(maxcount=max(0, rng.choice([C, 1, 0, max(cnts), min(cnts), SENT - 1, SENT, SENT + 1])))
     if fam == "seqpats":
         return dict(seqpats=[rng.choice(SEQ_PATS) for _ in range(rng.choice([1, 1, 2, 3]))])
     if fam == "defpats":
@@ -678,10 +962,24 @@ def gen_single_option(rng, ds, fam):
     if fam == "preds":
         return dict(preds=[gen_pexpr(rng, ds) for _ in range(rng.choice([1, 1, 2, 3]))])
     if fam == "hasattr":
-        return dict(hasattr=[rng.choice(SKEYS + IKEYS + ["count", "definition", "nokey"]) for _ in range(rng.choice([1, 1, 2]))])
+        return dict(hasattr=[rng.choice(SKEYS + IKEYS + ["count", "definition", "taxid", "nokey"]) for _ in range(rng.choice([1, 1, 2, 3, 4]))])
     if fam == "attrpats":
-        ks = rng.sample(SKEYS + IKEYS + ["count"], rng.choice([1, 1, 2, 3]))
-        return dict(attrpats={k: rng.choice(VAL_PATS) for k in ks})
+        ks = rng.sample(SKEYS + IKEYS + ["count"], rng.choice([1, 1, 2, 3, 4]))
+        o = dict(attrpats={k: rng.choice(VAL_PATS) for k in ks})
+        if rng.random() < 0.4:      # the same key given twice: the map keeps the last pattern
+            o["attrpats_over"] = [(k, rng.choice(VAL_PATS)) for k in rng.sample(ks, 1)]
+        return o
+    if fam == "approx":
+        pats = [gen_apat(rng, ds) for _ in range(rng.choice([1, 1, 1, 2]))]
+        o = dict(approx=pats)
+        e = rng.choice([None, 0, 1, 1, 2])
+        if e is not None:
+            o["pat_err"] = min(e, min(len(p) for p in pats) - 1)
+        if rng.random() < 0.45:
+            o["pat_indel"] = True
+        if rng.random() < 0.4:
+            o["pat_fwd"] = True
+        return o
     if fam == "idlist":
         ids = [r["id"] for r in ds if rng.random() < 0.4] + ["nosuchid"]
         return dict(idlist=ids)
@@ -699,7 +997,8 @@ def gen_single_option(rng, ds, fam):
 
 
 GREP_FAMS = ["minlen", "maxlen", "mincount", "maxcount", "seqpats", "defpats", "idpats", "preds", "hasattr", "attrpats", "idlist", "ranks", "restrict", "ignore",
-             "invert", "save_discarded"]
+             "approx", "invert", "save_discarded"]
+SCALARS = [("-l", "minlen"), ("-L", "maxlen"), ("-c", "mincount"), ("-C", "maxcount")]
 
 
 def gen_grep_cases(ctx, datasets, nrandom, npaired, grid):
@@ -717,6 +1016,28 @@ def gen_grep_cases(ctx, datasets, nrandom, npaired, grid):
     cases.append(mk(dict(minlen=1), w))
     cases.append(mk(dict(), w))
     cases.append(mk(dict(maxlen=SENT), w))
+    for k in ("minlen", "maxlen", "mincount", "maxcount"):
+        for v in (0, 1, 2, SENT - 1, SENT, SENT + 1):
+            cases.append(mk({k: v}, w))
+            cases.append(mk({k: v, "invert": True}, w, tag="boundary-invert"))
+    for perm in itertools.permutations(range(4)):        # the same four options in every order
+        cases.append(mk(dict(minlen=4, maxcount=5, hasattr=["k"], invert=True, shuffle=list(perm)), w + [dict(id="w4", attrs={"k": "x", "count": 2}, seq="acgtacg"), dict(id="w5", attrs={"k": "y", "count": 9}, seq="acgta")], tag="every-order"))
+    cases.append(mk(dict(minlen=5, repeat=[("-l", 50)]), w))
+    cases.append(mk(dict(maxcount=5, repeat=[("-C", 1), ("-C", 100)]), w))
+    cases.append(mk(dict(attrpats={"k": "^x"}, attrpats_over=[("k", "^a")]), tag="repeat-map-key"))
+    cases.append(mk(dict(hasattr=["k", "n", "tag", "count"])))
+    cases.append(mk(dict(approx=["acgtacgt"], pat_err=0), w))
+    cases.append(mk(dict(approx=["acgaacgt"], pat_err=1), w))
+    cases.append(mk(dict(approx=["acgaacgt"], pat_err=0), w))
+    cases.append(mk(dict(approx=["acgacgt"], pat_err=1), w))
+    cases.append(mk(dict(approx=["acgacgt"], pat_err=1, pat_indel=True), w))
+    cases.append(mk(dict(approx=["gtacgtac"], pat_fwd=True), w))
+    cases.append(mk(dict(approx=["gtacgtacgt"], pat_fwd=True), w))
+    cases.append(mk(dict(approx=["gtacgtacgt"]), w))
+    cases.append(mk(dict(approx=["acgtacgt", "tttt"]), w))
+    sc = [dict(id="t1", attrs={"count": "6"}, seq="acgtacgtac"), dict(id="t2", attrs={"count": 6}, seq="acgt"), dict(id="t3", attrs={"count": "x"}, seq="ac")]
+    for o in (dict(mincount=2), dict(maxcount=5), dict(mincount=6, maxcount=6), dict(preds=[("counteq", 1)]), dict(attrpats={"count": "^6$"})):
+        cases.append(mk(o, sc, tag="string-typed-count"))
     # nothing kept, everything discarded: main's output ends at once (witness of the discarded-writer exit race, fixed)
     cases.append(mk(dict(minlen=1000, save_discarded=True), w, tag="fixed:discarded-writer-exit-race"))
     cases.append(mk(dict(minlen=1000, save_discarded=True), tag="fixed:discarded-writer-exit-race"))
@@ -736,8 +1057,11 @@ def gen_grep_cases(ctx, datasets, nrandom, npaired, grid):
         o = {}
         for fam in rng.sample(GREP_FAMS, rng.randrange(3, 8)):
             o.update(gen_single_option(rng, ds, fam))
-        if rng.random() < 0.2 and o.get("minlen") is not None:
-            o["repeat"] = [("-l", o["minlen"] + 3)]
+        rep = [(opt, rng.choice([0, 1, 3, 7, 30, SENT])) for opt, k in SCALARS if o.get(k) is not None and rng.random() < 0.3]
+        if rep:
+            o["repeat"] = rep           # the same scalar option given earlier on the command line: the last occurrence wins
+        if rng.random() < 0.6:
+            o["shuffle"] = rng.randrange(1 << 30)      # options in another order
         cases.append(mk(o, ds))
     # paired inputs: the six modes x option families
     for i in range(npaired):
@@ -761,7 +1085,10 @@ def gen_grep_cases(ctx, datasets, nrandom, npaired, grid):
     return cases
 
 
-ANNOT_FAMS = ["clear", "setid", "delete", "keep", "rename", "length", "settag", "cut"]
+ANNOT_FAMS = ["clear", "setid", "delete", "keep", "rename", "length", "settag", "cut", "taxrank", "taxpath", "taxrankname", "sciname", "lca", "aho", "pattern",
+              "rename_special", "settag_special"]
+TAX_FAMS = ("taxrank", "taxpath", "taxrankname", "sciname", "lca")
+SEQ_DEP = ("aho", "pattern", "cut")       # not combined with an edit that replaces the sequence by an attribute value
 
 
 def gen_annot_option(rng, ds, fam):
@@ -782,6 +1109,55 @@ def gen_annot_option(rng, ds, fam):
     if fam == "settag":
         ks = rng.sample(["a", "b", "c", "d", "k"], rng.choice([1, 2, 3, 4]))
         return dict(settag={k: gen_vexpr(rng) for k in ks})
+    if fam == "taxrank":
+        return dict(taxrank=[rng.choice(TAX_RANKS[:4] + ["order"]) for _ in range(rng.choice([1, 1, 2, 3]))])
+    if fam == "taxpath":
+        return dict(taxpath=True)
+    if fam == "taxrankname":
+        return dict(taxrankname=True)
+    if fam == "sciname":
+        return dict(sciname=True)
+    if fam == "lca":
+        return dict(lca=rng.choice(["lca", "lca_taxid", "taxid", "x", "my_taxid_b"]))
+    if fam == "aho":
+        pats = []
+        for _ in range(rng.choice([1, 2, 3, 5])):
+            src = rng.choice(ds)["seq"]
+            m = rng.choice([2, 3, 4, 6])
+            p = src[:m] if len(src) >= m else "acg"
+            if rng.random() < 0.3:
+                p = p.upper()
+            if p.lower() not in [x.lower() for x in pats]:
+                pats.append(p)
+        return dict(aho=pats + ([""] if rng.random() < 0.3 else []))
+    if fam == "pattern":
+        p = gen_apat(rng, ds)
+        o = dict(pattern=p)
+        e = rng.choice([None, 0, 1, 1, 2])
+        if e is not None:
+            o["pat_err"] = min(e, len(p) - 1)
+        if rng.random() < 0.3:
+            o["pat_indel"] = True
+        if rng.random() < 0.4:
+            o["pat_fwd"] = True
+        if rng.random() < 0.4:
+            o["pattern_name"] = rng.choice(["pattern", "foo", "p1"])
+        return o
+    if fam == "rename_special":
+        k = rng.choice(["id<-", "<-id", "seq<-", "<-seq", "<-qual"])
+        if k == "id<-":
+            return dict(rename={"id": rng.choice(SKEYS + IKEYS + ["count", "nokey"])})
+        if k == "<-id":
+            return dict(rename={"old_id": "id"})
+        if k == "seq<-" and "qual" not in ds[0]:
+            return dict(rename={"sequence": rng.choice(SKEYS)})
+        if k == "<-seq":
+            return dict(rename={"seq_copy": "sequence"})
+        return dict(rename={"q": "qualities"})
+    if fam == "settag_special":
+        if rng.random() < 0.7 or "qual" in ds[0]:
+            return dict(settag={"id": gen_vexpr(rng)})
+        return dict(settag={"sequence": ("str", rng.choice(["acgt", "ACGTTT", "a"]))})
     if fam == "cut":
         L = len(rng.choice(ds)["seq"])
         frm = rng.choice([1, 2, 3, L, L + 1, max(1, L - 1)])
@@ -792,9 +1168,47 @@ def gen_annot_option(rng, ds, fam):
     raise ValueError(fam)
 
 
+def merge_annot(o, o2):
+    """union of two option sets (rename / settag maps are merged; their keys stay independent)"""
+    for k, v in o2.items():
+        if k in ("rename", "settag") and k in o:
+            o[k] = dict(o[k], **v)
+        else:
+            o[k] = v
+    return o
+
+
 def annot_conflict(o):
-    """rename targets / sources must be independent of the other edits' keys (Go map order is random)."""
+    """Go map order is random: rename / -S entries must be independent of each other; an edit that replaces the sequence
+    by an attribute value is not combined with the sequence-dependent matchers."""
+    ren = o.get("rename", {})
+    olds, news = list(ren.values()), list(ren.keys())
+    if len(set(olds)) != len(olds) or set(olds) & set(news):
+        return True
+    st = o.get("settag", {})
+    if ("id" in st or "sequence" in st) and len(st) > 1:
+        return True             # later -S expressions read sequence.Id() / Len()
+    if o.get("lca") and (o.get("clear") or o.get("keep") or {"taxid", "merged_taxid"} & (set(o.get("delete", [])) | set(olds) | set(news))):
+        return True             # --add-lca-in on a record without taxid: observation (panic in obitax), outside the statement
+    seqset = "sequence" in news or "sequence" in st
+    if seqset and (any(o.get(k) for k in ("aho", "pattern")) or o.get("cut") is not None):
+        return True
+    if ("id" in news or "id" in olds) and o.get("setid") is not None and "id" in news:
+        return False
     return False
+
+
+def annot_ds(rng, datasets, fams, fastq_ok=True):
+    if any(f in TAX_FAMS for f in fams):
+        return rng.choice(datasets["tax"])
+    return rng.choice(datasets["plain"] + (datasets["fastq"][:1] if fastq_ok else []))
+
+
+def gen_sel(rng, ds):
+    o = {}
+    for fam in rng.sample([f for f in GREP_FAMS if f not in ("save_discarded", "ranks", "restrict", "ignore", "approx")], rng.choice([1, 1, 2])):
+        o.update(gen_single_option(rng, ds, fam))
+    return o
 
 
 def gen_annot_cases(ctx, datasets, nrandom, grid):
@@ -811,26 +1225,75 @@ def gen_annot_cases(ctx, datasets, nrandom, grid):
     cases.append(mk(dict(cut=[3, 100]), list(reversed(w)), cpu=1, batch=10, tag="fixed:cut-captured-bounds"))
     cases.append(mk(dict(cut=[2, -2]), w))
     wq = [dict(id="q%d" % i, attrs={}, seq="acg", qual="III") for i in range(12)] + [dict(id="long", attrs={}, seq="acgtacgtacgtacgtacgt", qual="I" * 20)]
-    cases.append(mk(dict(cut=[5, 10]), wq, cpu=2, batch=5, tag="known:fastq-written-as-fasta"))
+    for _ in range(4):
+        cases.append(mk(dict(cut=[5, 10]), wq, cpu=2, batch=5, tag="fixed:fastq-written-as-fasta"))
     cases.append(mk(dict(), w))
+    for perm in itertools.permutations(range(4)):        # the same four edits requested in every order: the chain order is fixed
+        cases.append(mk(dict(delete=["n"], rename={"kk": "k"}, length=True, settag={"a": ("lenplus", 1)}, shuffle=list(perm)), w, tag="every-order"))
+    # selection options restrict WHICH records are edited; the others are written unchanged
+    cases.append(mk(dict(length=True), w, sel=dict(minlen=8), tag="fixed:unselected-records-dropped"))
+    cases.append(mk(dict(), w, sel=dict(minlen=8), tag="fixed:selection-without-edit"))
+    cases.append(mk(dict(length=True), w, sel=dict(invert=True), tag="fixed:nil-predicate-shortcut"))
+    cases.append(mk(dict(settag={"a": ("int", 1)}), w, sel=dict(hasattr=["k"], invert=True)))
+    # the special keys id / sequence / qualities of SetAttribute / GetAttribute
+    cases.append(mk(dict(rename={"id": "n"}), w, tag="fixed:special-key-type-assertion"))
+    cases.append(mk(dict(rename={"id": "k"}), w))
+    cases.append(mk(dict(rename={"sequence": "k"}), w, tag="fixed:special-key-type-assertion"))
+    cases.append(mk(dict(rename={"s": "sequence"}), w))
+    cases.append(mk(dict(rename={"i": "id"}), w))
+    cases.append(mk(dict(rename={"q": "qualities"}), w))
+    cases.append(mk(dict(rename={"q": "qualities"}), wq))
+    cases.append(mk(dict(settag={"id": ("int", 1)}), w, tag="fixed:special-key-type-assertion"))
+    cases.append(mk(dict(settag={"id": ("lenplus", 0)}), w, tag="fixed:special-key-type-assertion"))
+    cases.append(mk(dict(settag={"sequence": ("str", "ACGT")}, length=True), w, tag="fixed:special-key-type-assertion"))
+    # --pattern: strand, error budget, indel flag, slot names
+    wp = [dict(id="m1", attrs={}, seq="ttttacgtacgtacgtttt"), dict(id="m2", attrs={}, seq="acgtacgtac"), dict(id="m3", attrs={}, seq="aaaacgtacgtacgtaaaa"), dict(id="m4", attrs={}, seq="gg")]
+    cases.append(mk(dict(pattern="aaaacgt"), wp))
+    cases.append(mk(dict(pattern="aaaacgt", pat_fwd=True), wp, tag="fixed:pattern-only-forward-ignored"))
+    cases.append(mk(dict(pattern="acgaacgtac", pat_err=1), wp))
+    cases.append(mk(dict(pattern="acgaacgtac", pat_err=0), wp))
+    cases.append(mk(dict(pattern="acgacgtac", pat_err=1, pat_indel=True), wp))
+    cases.append(mk(dict(pattern="acgacgtac", pat_err=1), wp))
+    cases.append(mk(dict(pattern="acgtacgt", pattern_name="foo"), wp))
+    cases.append(mk(dict(pattern="acgtacgt", pattern_name="pattern"), wp))
+    cases.append(mk(dict(aho=["acg", "GTA", "", "cgtacg"]), wp))
+    cases.append(mk(dict(aho=["zzz"]), wp))
     for fam in ANNOT_FAMS:
         for _ in range(3):
-            ds = rng.choice(datasets["plain"] + datasets["fastq"][:1])
+            ds = annot_ds(rng, datasets, [fam])
             cases.append(mk(gen_annot_option(rng, ds, fam), ds))
     for f1, f2 in itertools.combinations(ANNOT_FAMS, 2):
-        ds = rng.choice(datasets["plain"])
-        o = gen_annot_option(rng, ds, f1)
-        o.update(gen_annot_option(rng, ds, f2))
-        cases.append(mk(o, ds))
+        for _ in range(20):
+            ds = annot_ds(rng, datasets, [f1, f2], fastq_ok=False)
+            o = merge_annot(gen_annot_option(rng, ds, f1), gen_annot_option(rng, ds, f2))
+            if not annot_conflict(o):
+                cases.append(mk(o, ds))
+                break
     for _ in range(nrandom):
-        ds = rng.choice(datasets["plain"] + datasets["fastq"])
-        o = {}
-        for fam in rng.sample(ANNOT_FAMS, rng.randrange(3, 7)):
-            o.update(gen_annot_option(rng, ds, fam))
-        cases.append(mk(o, ds))
+        for _ in range(20):
+            fams = rng.sample(ANNOT_FAMS, rng.randrange(3, 8))
+            ds = annot_ds(rng, datasets, fams) if rng.random() < 0.8 else rng.choice(datasets["fastq"] if not any(f in TAX_FAMS for f in fams) else datasets["tax"])
+            o = {}
+            for fam in fams:
+                merge_annot(o, gen_annot_option(rng, ds, fam))
+            if annot_conflict(o):
+                continue
+            if rng.random() < 0.5:
+                o["shuffle"] = rng.randrange(1 << 30)
+            kw = {}
+            if rng.random() < 0.3:
+                kw["sel"] = gen_sel(rng, ds)
+            cases.append(mk(o, ds, **kw))
+            break
+    # selection alone / with one edit, every selection family
+    for fam in [f for f in GREP_FAMS if f not in ("save_discarded",)]:
+        ds = rng.choice(datasets["tax"])
+        cases.append(mk(dict(length=True, settag={"a": ("int", 1)}), ds, sel=gen_single_option(rng, ds, fam)))
+        cases.append(mk(dict(), ds, sel=gen_single_option(rng, ds, fam)))
     for cpu, batch in grid:
         ds = datasets["plain"][-1]
         cases.append(mk(dict(settag={"a": ("lenplus", 1), "b": ("str", "foo")}, cut=[2, 9], length=True), ds, cpu=cpu, batch=batch))
+        cases.append(mk(dict(length=True), ds, cpu=cpu, batch=batch, sel=dict(minlen=9)))
     return cases
 
 
@@ -859,6 +1322,13 @@ def gen_dist_cases(ctx, datasets, nrandom, grid):
         else:
             o = dict(hash=rng.randrange(1, 9))
         cases.append(mk(o, rng.choice(datasets["plain"] + datasets["fastq"])))
+    big = datasets["plain"][-1]
+    for batch in (1, 2, 3, 4, 7):
+        for key in ("k", "sample"):
+            grouped = sorted(big, key=lambda r: str(r["attrs"].get(key, "")))      # long runs of one class: its buffer fills several times in a run
+            cases.append(mk(dict(classifier=key), grouped, cpu=rng.choice([1, 2, 4]), batch=batch, tag="runs-over-batch-boundary"))
+        cases.append(mk(dict(classifier="nokey"), big, cpu=2, batch=batch, tag="runs-over-batch-boundary"))       # a single class
+        cases.append(mk(dict(batches=2), big, cpu=2, batch=batch))
     for cpu, batch in grid:
         cases.append(mk(dict(classifier="k"), datasets["plain"][-1], cpu=cpu, batch=batch))
         cases.append(mk(dict(batches=3), datasets["plain"][-1], cpu=cpu, batch=batch))
@@ -915,7 +1385,11 @@ def check_annot(case, res):
         return False, "exit %s: %s" % (res["rc"], res.get("err", "")[-300:]), None
     exp = []
     for r in ds:
-        exp += spec_annot(o, r)
+        exp += spec_annot(o, r, case.get("sel"))
+    if o.get("pattern") and o.get("pat_indel"):
+        sel = case.get("sel")
+        why = pattern_indel_ok(o, exp, res["out"], set(rec_key(r) for r in ds if sel is not None and not spec_single(sel, r)))
+        return (why is None), why, None
     got = sorted(rec_key(r) for r in res["out"])
     if got == sorted(rec_key(r) for r in exp):
         return True, None, None
@@ -943,6 +1417,9 @@ def check_dist(case, res):
         return False, "the outputs are not a partition of the input (%d records out, %d in)" % (len(allgot), len(ds)), None
     if {k: sorted(v) for k, v in got.items()} != {k: sorted(v) for k, v in exp.items()}:
         return False, "records routed to the wrong file: got %s expected %s" % ({k: len(v) for k, v in got.items()}, {k: len(v) for k, v in exp.items()}), None
+    if got != exp:
+        bad = [k for k in exp if got[k] != exp[k]]
+        return False, "records of %s are not in input order" % bad[:3], None
     return True, None, None
 
 
@@ -1049,6 +1526,8 @@ def cval(v):
         return "VS %s" % cs(sprint(v))
     if isinstance(v, int):
         return "VI %s" % cz(v)
+    if isinstance(v, dict):
+        return "VM %s" % clist("(%s, %s)" % (cs(k), cz(x)) for k, x in sorted(v.items()))
     return "VS %s" % cs(v)
 
 
@@ -1106,23 +1585,28 @@ def cgopts(o):
     def zz(k, d):
         v = o.get(k)
         return cz(d if v is None else v)
-    return "(mkg %s %s %s %s %s %s %s %s %s %s %s %s %s %s %s %s)" % (
+    return "(mkg2 %s %s %s %s %s %s %s %s %s %s %s %s %s %s %s %s %s %s %s %s)" % (
         zz("minlen", 1), zz("maxlen", SENT), zz("mincount", 1), zz("maxcount", SENT),
         clist(cpat(p, True) for p in o.get("seqpats", [])), clist(cpat(p) for p in o.get("defpats", [])), clist(cpat(p) for p in o.get("idpats", [])),
         clist(cpexpr(e) for e in o.get("preds", [])), clist(cs(k) for k in o.get("hasattr", [])),
         clist("(%s, %s)" % (cs(k), cpat(p)) for k, p in o.get("attrpats", {}).items()),
         "None" if o.get("idlist") is None else "(Some %s)" % clist(cs(x.strip()) for x in o["idlist"]),
         cb(o.get("invert")), "M" + o.get("mode", "forward").capitalize().replace("Andnot", "AndNot"),
-        clist("TRank %s" % cs(x) for x in o.get("ranks", [])), clist("TSub %d" % x for x in o.get("restrict", [])), clist("TSub %d" % x for x in o.get("ignore", [])))
+        clist("TRank %s" % cs(x) for x in o.get("ranks", [])), clist("TSub %d" % x for x in o.get("restrict", [])), clist("TSub %d" % x for x in o.get("ignore", [])),
+        clist(cs(p) for p in o.get("approx", [])), cz(o.get("pat_err") or 0), cb(o.get("pat_indel")), cb(o.get("pat_fwd")))
 
 
 def caopts(o):
-    return "(mka %s %s %s %s %s %s %s %s)" % (
+    return "(mka2 %s %s %s %s %s %s %s %s %s %s %s %s %s %s %s %s %s %s %s)" % (
         cb(o.get("clear")), "None" if o.get("setid") is None else "(Some %s)" % cvexpr(o["setid"]),
         clist(cs(k) for k in o.get("delete", [])), clist(cs(k) for k in o.get("keep", [])),
         clist("(%s, %s)" % (cs(n), cs(ol)) for n, ol in o.get("rename", {}).items()), cb(o.get("length")),
         clist("(%s, %s)" % (cs(k), cvexpr(e)) for k, e in o.get("settag", {}).items()),
-        "None" if o.get("cut") is None else "(Some (%s, %s))" % (cz(o["cut"][0]), cz(o["cut"][1])))
+        "None" if o.get("cut") is None else "(Some (%s, %s))" % (cz(o["cut"][0]), cz(o["cut"][1])),
+        clist(cs(k) for k in o.get("taxrank", [])), cb(o.get("taxpath")), cb(o.get("taxrankname")), cb(o.get("sciname")), cs(o.get("lca") or ""),
+        "None" if o.get("aho") is None else "(Some %s)" % clist(cs(x) for x in o["aho"]),
+        "None" if not o.get("pattern") else "(Some %s)" % cs(o["pattern"]), cs("pattern" if o.get("pattern_name") is None else o["pattern_name"]),
+        cz(o.get("pat_err") or 0), cb(o.get("pat_fwd")), cb(o.get("pat_indel")))
 
 
 def case_term(case, res, dsname):
@@ -1136,11 +1620,11 @@ def case_term(case, res, dsname):
     if case["tool"] == "annot":
         exp = []
         for r in ds:
-            exp += spec_annot(o, r)
+            exp += spec_annot(o, r, case.get("sel"))
         got = res["out"]
         if sorted(rec_key(r) for r in got) == sorted(rec_key(r) for r in exp):
             got = exp       # same multiset: present it in input order (output order is C03's business)
-        return "CAnnot %s %s %s" % (caopts(o), dsname[id(ds)], clist(crec(r) for r in got))
+        return "CAnnot %s %s %s %s" % (caopts(o), "None" if case.get("sel") is None else "(Some %s)" % cgopts(case["sel"]), dsname[id(ds)], clist(crec(r) for r in got))
     # dist: observed file of each record, by (value, directory)
     where = {}
     for fn, rs in res["files"].items():
@@ -1150,16 +1634,39 @@ def case_term(case, res, dsname):
             where[r["id"]] = (v, d)
     o2 = "(DClass %s %s %s)" % (cs(o["classifier"]), cs(o.get("directory", "")), cs(o.get("na", "NA"))) if o.get("classifier") else \
         ("(DRotate %d)" % o["batches"] if o.get("batches") else "(DHash %d)" % o["hash"])
-    return "CDist %s %s %s" % (o2, dsname[id(ds)], clist("(%s, %s)" % (cs(where.get(r["id"], ("?", "?"))[0]), cs(where.get(r["id"], ("?", "?"))[1])) for r in ds))
+    files = []
+    for fn, rs in sorted(res["files"].items()):
+        d, b = os.path.split(fn)
+        files.append("((%s, %s), %s)" % (cs(b[len("part_"):].rsplit(".", 1)[0]), cs(d), clist(cs(r["id"]) for r in rs)))
+    return "CDist %s %d %s %s %s" % (o2, case.get("batch", 5), dsname[id(ds)], clist("(%s, %s)" % (cs(where.get(r["id"], ("?", "?"))[0]), cs(where.get(r["id"], ("?", "?"))[1])) for r in ds),
+                                     clist(files))
 
 
 IMPORTS = "From Coq Require Import ZArith List String Ascii Bool. Import ListNotations. Open Scope string_scope. Open Scope list_scope. Open Scope Z_scope.\nFrom OBI.C16 Require Import Model.\n"
 
 
+def in_model(c):
+    """cases the Coq model can evaluate"""
+    o = c["opts"]
+    if c["tool"] == "annot":
+        if o.get("pattern") and o.get("pat_indel"):
+            return False        # BestMatch with indels re-aligns the occurrence (C10): oracle only
+        if "qualities" in o.get("rename", {}).values() and "qual" in c["ds"][0]:
+            return False        # the model has no quality strings
+    return True
+
+
 def correspond(ctx, label, cases, results, broken):
-    idx = [i for i, (c, r) in enumerate(zip(cases, results)) if r["rc"] == 0 and c["tool"] != "mux" and not (c["tool"] == "dist" and c["opts"].get("hash"))]
+    idx = [i for i, (c, r) in enumerate(zip(cases, results)) if r["rc"] == 0 and c["tool"] != "mux" and not (c["tool"] == "dist" and c["opts"].get("hash")) and in_model(c)]
+    cap = 600 if ctx.quick else 3000         # the oracle judges every run; the model is evaluated on the corpus + a sample beyond the cap
+    if len(idx) > cap:
+        tagged = [i for i in idx if cases[i].get("tag") and not str(cases[i]["tag"]).endswith("exit-race")]       # the corpus witnesses are always evaluated
+        rest = [i for i in idx if i not in set(tagged)]
+        keep = set(tagged) | set(ctx.rng.sample(rest, max(0, min(len(rest), cap - len(tagged)))))
+        ctx.cov["correspondence_sampled"] = "%d of %d eligible runs" % (len(keep), len(idx))
+        idx = [i for i in idx if i in keep]
     bad_all = []
-    shard = 60
+    shard = 25                               # ~350 MB per coqc: small shards keep the memory footprint low on a loaded machine
     # data sets are defined once per shard (the terms refer to them by name)
     from concurrent.futures import ThreadPoolExecutor
     jobs = []
@@ -1177,9 +1684,13 @@ def correspond(ctx, label, cases, results, broken):
         pass
     with ThreadPoolExecutor(max_workers=8) as ex:
         outs = list(ex.map(lambda j: ctx.correspond(j[3], j[1], j[2], shard=10 ** 6), jobs))
+    import time
     for j, (bad, err) in zip(jobs, list(outs)):
-        if bad is None:         # a shard killed from outside (loaded machine): evaluate it once more, alone
-            outs[jobs.index(j)] = ctx.correspond(j[3] + "r", j[1], j[2], shard=10 ** 6)
+        for attempt in range(3):    # a shard killed from outside (loaded machine, OOM killer): evaluate it again, alone
+            if outs[jobs.index(j)][0] is None and "Error" not in (outs[jobs.index(j)][1] or ""):
+                ctx.cov["shards_retried"] = ctx.cov.get("shards_retried", 0) + 1
+                time.sleep(2 + 5 * attempt)
+                outs[jobs.index(j)] = ctx.correspond(j[3] + "r%d" % attempt, j[1], j[2], shard=10 ** 6)
     for (part, _, _, _), (bad, err) in zip(jobs, outs):
         if bad is None:
             broken.append(dict(kind="correspondence", detail=err))
@@ -1195,6 +1706,7 @@ def make_datasets(ctx):
     n = 14 if ctx.quick else 30
     plain = [gen_dataset(rng, n) for _ in range(4)] + [gen_dataset(rng, 41)]
     fastq = [gen_dataset(rng, n, fastq=True) for _ in range(2)]
+    tax = [gen_dataset(rng, n, all_taxid=True) for _ in range(3)]
     paired = []
     for _ in range(3):
         f = gen_dataset(rng, n, prefix="p")
@@ -1202,7 +1714,7 @@ def make_datasets(ctx):
         for a, b in zip(f, r):
             b["id"] = a["id"]
         paired.append((f, r))
-    return dict(plain=plain, fastq=fastq, paired=paired)
+    return dict(plain=plain, fastq=fastq, paired=paired, tax=tax)
 
 
 def strip_case(c):
@@ -1210,11 +1722,14 @@ def strip_case(c):
 
 
 def evaluate(ctx, cases, broken, label, bindir):
+    import time
+    t0 = time.time()
     runner = Runner(ctx, bindir)
     try:
         results = runner.run_all(cases)
     finally:
         runner.close()
+    ctx.cov.setdefault("phase_s", {})["run_commands"] = round(time.time() - t0, 1)
     nviol = 0
     per_class = {}
     failing = []
@@ -1229,7 +1744,9 @@ def evaluate(ctx, cases, broken, label, bindir):
         if ok:
             continue
         failing.append(i)
-        if key and ctx.kf_match(key):
+        if os.environ.get("C16_DEBUG"):          # triage aid: C16_DEBUG=FILE lists EVERY failing run (violations are capped at MAX_VIOL replays)
+            open(os.environ["C16_DEBUG"], "a").write(json.dumps(dict(i=i, tool=c["tool"], tag=c.get("tag"), opts=c["opts"], sel=c.get("sel"), key=key, what=(detail or "")[:400], argv=res.get("argv")), default=str) + "\n")
+        if key and key in KNOWN_TEXT and ctx.kf_match(key):
             ctx.known(key, KNOWN_TEXT[key])
             continue
         nviol += 1
@@ -1238,7 +1755,9 @@ def evaluate(ctx, cases, broken, label, bindir):
         if per_class[klass] <= 1 and len(ctx.violations) < MAX_VIOL:
             ctx.violation("%s_oracle_%d" % (label, i), dict(property="C16", kind="direct-oracle", tool=c["tool"], case=strip_case(c),
                                                           what=detail, argv=res.get("argv"), implementation={k: v for k, v in res.items() if k not in ("argv",)}))
+    t0 = time.time()
     mism = correspond(ctx, label, cases, results, broken)
+    ctx.cov["phase_s"]["correspondence"] = round(time.time() - t0, 1)
     return results, failing, mism
 
 
@@ -1265,25 +1784,17 @@ def run(ctx, broken):
         else:
             cases.append(dict(tool="grep", opts=dict(minlen=4, save_discarded=True, invert=True, mode="andnot"), ds=wf, mates=wr, cpu=2, batch=5, tag="fixed:discarded-writer-exit-race"))
     results, failing, mism = evaluate(ctx, cases, broken, "main", bindir)
-    # observation outside the statement: obiannotate + selection options drops the unselected records
-    obs_case = dict(tool="annot", opts=dict(length=True), sel=dict(minlen=8), ds=datasets["plain"][0])
+    # observations outside the statement (recorded in the evidence only)
     r = Runner(ctx, bindir)
     try:
-        ores = r.run(0, obs_case)
+        o1 = r.run(0, dict(tool="annot", opts=dict(lca="lca"), ds=[dict(id="n1", attrs={}, seq="acgt")]))
+        o2 = r.run(1, dict(tool="annot", opts=dict(lca="lca", sciname=True), ds=[dict(id="n1", attrs={"taxid": 40, "count": 3}, seq="acgt")]))
     finally:
         r.close()
-    if ores["rc"] == 0:
-        nsel = sum(1 for x in obs_case["ds"] if len(x["seq"]) >= 8)
-        ctx.cov["observation_outside_statement"] = ("obiannotate --length -l 8: %d records in, %d selected, %d written (unselected records are %s)" % (
-            len(obs_case["ds"]), nsel, len(ores["out"]), "dropped" if len(ores["out"]) == nsel else "passed through"))
-    obs2 = dict(tool="annot", opts=dict(), sel=dict(minlen=8), ds=datasets["plain"][0])
-    r = Runner(ctx, bindir)
-    try:
-        ores2 = r.run(0, obs2)
-    finally:
-        r.close()
-    ctx.cov["observation_outside_statement_2"] = "obiannotate -l 8 (selection options, no edit): exit %s%s" % (
-        ores2["rc"], " (nil worker called: nil pointer dereference)" if "nil pointer" in ores2.get("err", "") or ores2["rc"] not in (0, "timeout") else "")
+    ctx.cov["observations"] = [
+        "obiannotate --add-lca-in on a record without taxid: exit %s (obitax TaxonomicDistribution looks taxid 0 up)" % o1["rc"],
+        "obiannotate --add-lca-in --scientific-name on {taxid:40,count:3}: attributes written %s" % (sorted(o2["out"][0]["attrs"]) if o2["rc"] == 0 and o2.get("out") else o2["rc"]),
+        "a string-typed count ({\"count\":\"6\"}) reads as 1 (BioSequence.Count); modelled and driven (corpus tag string-typed-count)"]
     ctx.cov["evaluations"] = len(cases)
     ctx.cov["records_judged"] = sum(len(c["ds"]) for c in cases)
 
